@@ -280,6 +280,7 @@ def _parse_header(ctx: Ctx, r: Func, plat: str, text: str, ty: str) -> Tuple[boo
         return False, f"no pattern of {pats} extracts the part after the prefix"
     # does a path feasible for plat treat the whole rest as the name (no type word)?
     takes_all = False
+    assigned_type = None
     for p in function_paths(ctx.cfg(r)):
         if p.raises or feasible(p, folder, r, symenv) is False:
             continue
@@ -287,7 +288,24 @@ def _parse_header(ctx: Ctx, r: Func, plat: str, text: str, ty: str) -> Tuple[boo
         if isinstance(nm, ast.Name) and nm.id in ("_line",):
             if not any(isinstance(t, ast.Name) and t.id == "_type" for t, tr in p.atoms):
                 takes_all = True
+                # the type word this path assigns (last constant bound to _type before it is normalised)
+                env2: Dict[str, object] = dict(folder.local_env(r))
+                env2.update(symenv)
+                for node, _lab in p.nodes:
+                    st = node.ast
+                    if node.kind == "stmt" and isinstance(st, (ast.Assign, ast.AnnAssign)) and getattr(st, "value", None) is not None:
+                        tg = st.targets[0] if isinstance(st, ast.Assign) else st.target
+                        pairs = [(tg, st.value)]
+                        if isinstance(tg, ast.Tuple) and isinstance(st.value, ast.Tuple) and len(tg.elts) == len(st.value.elts):
+                            pairs = list(zip(tg.elts, st.value.elts))
+                        for a_, b_ in pairs:
+                            if isinstance(a_, ast.Name) and a_.id == "_type":
+                                v_ = folder.fold(b_, r.module, env2)
+                                if isinstance(v_, str) and v_:
+                                    assigned_type = v_
     if takes_all:
+        if rest == "NAME" and assigned_type is not None and assigned_type != ty:
+            return False, f"on {plat} the parser takes the remainder as the name and assigns type {assigned_type!r}, the renderer wrote a {ty!r} ACL"
         if rest == "NAME":
             return True, "platform takes the whole remainder as the name; the renderer wrote no type word"
         return False, f"on {plat} the parser takes the whole remainder {rest!r} as the name, but the renderer wrote a type word"
